@@ -217,7 +217,7 @@ Proof. unfold Cst. destruct n as [|[|n]]; destruct sa, sc; vm_compute; reflexivi
 
 Lemma coll_close strip sepc S A op acc sa sc :
   step strip sepc (Cst S A op 0 acc sa sc) ")"%char
-  = Ok (Top (S ++ [(Some TCollector, ACollector op acc)])%list (Some TCollector) A "" sa true).
+  = Ok (Top (S ++ [(Some TCollector, ACollector op acc)])%list None A "" sa true).
 Proof. unfold Cst. destruct sa, sc; reflexivity. Qed.
 
 Lemma coll_expr strip sepc S A op : forall e d n acc sa,
